@@ -1,3 +1,4 @@
+import re
 from typing import TYPE_CHECKING, Dict, Union
 
 import rdflib
@@ -7,6 +8,9 @@ from pyshacl.errors import ReportableRuntimeError
 
 if TYPE_CHECKING:
     from pyshacl.shape import ShapesGraph
+
+# local names that can be written in a SPARQL prefixed name without escaping
+_SAFE_LOCAL_NAME = re.compile(r"^[A-Za-z_][A-Za-z0-9_]*$")
 
 
 def shacl_path_to_sparql_path(
@@ -29,9 +33,11 @@ def shacl_path_to_sparql_path(
         string_uri = str(path_node)
         if prefixes is not None and len(prefixes) > 0:
             for p, ns in prefixes.items():
-                if string_uri.startswith(ns):
-                    string_uri = ':'.join([p, string_uri.replace(ns, '')])
-                    return string_uri
+                ns = str(ns)
+                if len(ns) > 0 and string_uri.startswith(ns):
+                    local_name = string_uri[len(ns) :]
+                    if _SAFE_LOCAL_NAME.match(local_name):
+                        return ':'.join([p, local_name])
         return f"<{string_uri}>"
     elif isinstance(path_node, rdflib.Literal):
         raise ReportableRuntimeError("Values of a property path cannot be a Literal.")
@@ -60,7 +66,8 @@ def shacl_path_to_sparql_path(
         inverse_path_string = shacl_path_to_sparql_path(
             shapes_graph, inverse_path, prefixes=prefixes, recursion=recursion + 1
         )
-        return f"^{inverse_path_string}"
+        # a SPARQL path element takes one '^' and one modifier: nested ones need their own brackets
+        return f"^{inverse_path_string}" if top_level else f"(^{inverse_path_string})"
 
     find_alternatives = set(shapes_graph.objects(path_node, SH_alternativePath))
     if len(find_alternatives) > 0:
@@ -83,7 +90,7 @@ def shacl_path_to_sparql_path(
         zom_path_string = shacl_path_to_sparql_path(
             shapes_graph, zero_or_more_path, prefixes=prefixes, recursion=recursion + 1
         )
-        return f"{zom_path_string}*"
+        return f"{zom_path_string}*" if top_level else f"({zom_path_string}*)"
 
     find_zero_or_one = set(shapes_graph.objects(path_node, SH_zeroOrOnePath))
     if len(find_zero_or_one) > 0:
@@ -91,7 +98,7 @@ def shacl_path_to_sparql_path(
         zoo_path_string = shacl_path_to_sparql_path(
             shapes_graph, zero_or_one_path, prefixes=prefixes, recursion=recursion + 1
         )
-        return f"{zoo_path_string}?"
+        return f"{zoo_path_string}?" if top_level else f"({zoo_path_string}?)"
 
     find_one_or_more = set(shapes_graph.objects(path_node, SH_oneOrMorePath))
     if len(find_one_or_more) > 0:
@@ -99,6 +106,6 @@ def shacl_path_to_sparql_path(
         oom_path_string = shacl_path_to_sparql_path(
             shapes_graph, one_or_more_path, prefixes=prefixes, recursion=recursion + 1
         )
-        return f"{oom_path_string}+"
+        return f"{oom_path_string}+" if top_level else f"({oom_path_string}+)"
 
     raise NotImplementedError("That path method to get value nodes of property shapes is not yet implemented.")
